@@ -36,6 +36,10 @@ STDLIB_TRUSTED = {
     # name -> reason
     "time.time": "clock read",
     "uuid.uuid4": "random uuid",
+    "uuid.UUID": "constructor from library-computed parts",
+    "itertools.count": "constructor",
+    "itertools.chain": "constructor",
+    "collections.deque": "constructor",
     "contextvars.ContextVar": "constructor",
     "contextvars.copy_context": "copies the caller's context",
     "threading.Lock": "constructor",
